@@ -231,6 +231,7 @@ fn surgery_poseidon(tag: &str, data: &CircuitData<F, PC, D>, proof: &ProofWithPu
 // C03 / C18: every element and every list of an accepted proof is bound; malformed proofs are rejected without panicking
 #[test]
 fn c03_c18_surgery_small_domain() {
+    log::set_max_level(log::LevelFilter::Trace);   // log statements are part of the code under test: their arguments are evaluated at this level
     let (data, proof) = circuit::<PC>(cfg_small(), 20, 3 + seed(), false);
     let (cases, bad) = surgery_poseidon("small", &data, &proof, true);
     finish("c03_c18_surgery_small_domain", cases, bad);
@@ -238,6 +239,7 @@ fn c03_c18_surgery_small_domain() {
 
 #[test]
 fn c03_c18_surgery_fixed_arity() {
+    log::set_max_level(log::LevelFilter::Trace);   // log statements are part of the code under test: their arguments are evaluated at this level
     let (data, proof) = circuit::<PC>(cfg_fixed(), 6, 5 + seed(), true);
     let (cases, bad) = surgery_poseidon("fixed", &data, &proof, true);
     finish("c03_c18_surgery_fixed_arity", cases, bad);
@@ -245,6 +247,7 @@ fn c03_c18_surgery_fixed_arity() {
 
 #[test]
 fn c03_c18_surgery_standard_config() {
+    log::set_max_level(log::LevelFilter::Trace);   // log statements are part of the code under test: their arguments are evaluated at this level
     let (data, proof) = circuit::<PC>(CircuitConfig::standard_recursion_config(), 40, 7 + seed(), false);
     let (cases, bad) = surgery_poseidon("std", &data, &proof, false);
     finish("c03_c18_surgery_standard_config", cases, bad);
@@ -252,6 +255,7 @@ fn c03_c18_surgery_standard_config() {
 
 #[test]
 fn c03_other_circuit_and_compressed() {
+    log::set_max_level(log::LevelFilter::Trace);   // log statements are part of the code under test: their arguments are evaluated at this level
     let mut bad = Vec::new();
     let mut cases = 0usize;
     let (data_a, proof_a) = circuit::<PC>(cfg_small(), 20, 3, false);
@@ -519,6 +523,11 @@ fn merkle_battery<H: Hasher<F>>(tag: &str, bad: &mut Vec<String>, cases: &mut us
                         // other leaf of the same width
                         let mut l2 = leaves[i].clone(); l2[width - 1] += F::ONE; *cases += 1;
                         if verify_merkle_proof_to_cap::<F, H>(l2, i, &tree.cap, &proof).is_ok() { bad.push(format!("{tag} n={n} w={width} cap={cap_height}: altered leaf accepted at {i}")); }
+                        // every element of the leaf is bound, in every byte of its value (small trees only: the number of cases grows quickly)
+                        if n <= 4 { for e in 0..width { for delta in [1u64, 0x100, 0x1_0000, 1 << 32, 1 << 40, 1 << 56, 0x8000_0000_0000_0000 % p] {
+                            let mut l3 = leaves[i].clone(); l3[e] += F::from_canonical_u64(delta); *cases += 1;
+                            if verify_merkle_proof_to_cap::<F, H>(l3, i, &tree.cap, &proof).is_ok() { bad.push(format!("{tag} n={n} w={width} cap={cap_height}: leaf {i} altered in element {e} by {delta:#x} still verifies")); }
+                        } } }
                         for s in 0..proof.siblings.len() {
                             let mut p2 = proof.clone(); tweak(&mut p2.siblings[s]); *cases += 1;
                             if verify_merkle_proof_to_cap::<F, H>(leaves[i].clone(), i, &tree.cap, &p2).is_ok() { bad.push(format!("{tag} n={n} w={width} cap={cap_height}: altered sibling {s} accepted at {i}")); }
@@ -559,6 +568,7 @@ fn c12_merkle_keccak() {
 // C18 / C17: proof decoders never panic or over-allocate on corrupted bytes; encodings round-trip
 #[test]
 fn c18_c17_decoders() {
+    log::set_max_level(log::LevelFilter::Trace);   // log statements are part of the code under test: their arguments are evaluated at this level
     let mut bad = Vec::new();
     let mut cases = 0usize;
     let (data, proof) = circuit::<PC>(cfg_fixed(), 6, 19 + seed(), true);
@@ -595,6 +605,7 @@ fn c18_c17_decoders() {
 // C18: the compressed verification entry point must return an error (not panic) on tampered / malformed compressed proofs
 #[test]
 fn c18_compressed_malformed() {
+    log::set_max_level(log::LevelFilter::Trace);   // log statements are part of the code under test: their arguments are evaluated at this level
     let mut bad = Vec::new();
     let mut cases = 0usize;
     let (data, proof) = circuit::<PC>(cfg_fixed(), 6, 23 + seed(), true);
@@ -656,19 +667,26 @@ fn circuit_rows(config: CircuitConfig, min_rows: usize, x0: u64, with_lut: bool,
 fn c16_compression() {
     let mut bad = Vec::new();
     let mut cases = 0usize;
-    let schedules: Vec<(FriReductionStrategy, usize, usize, usize)> = vec![
-        // (strategy, cap_height, num_query_rounds, min_rows)
-        (FriReductionStrategy::Fixed(vec![3, 2]), 4, 400, 1 << 3),
-        (FriReductionStrategy::Fixed(vec![2, 2]), 1, 20, 1 << 4),
-        (FriReductionStrategy::Fixed(vec![3, 1, 2]), 2, 30, 1 << 5),
-        (FriReductionStrategy::Fixed(vec![1, 2, 1, 1]), 0, 40, 1 << 5),
-        (FriReductionStrategy::ConstantArityBits(1, 1), 2, 14, 1 << 3),
-        (FriReductionStrategy::ConstantArityBits(4, 5), 4, 28, 1 << 9),
-        (FriReductionStrategy::ConstantArityBits(3, 2), 3, 60, 1 << 6),
-        (FriReductionStrategy::ConstantArityBits(2, 3), 5, 500, 1 << 4),
+    let schedules: Vec<(FriReductionStrategy, usize, usize, usize, usize)> = vec![
+        // (strategy, cap_height, num_query_rounds, min_rows, rate_bits)
+        (FriReductionStrategy::Fixed(vec![3, 2]), 4, 400, 1 << 3, 3),
+        (FriReductionStrategy::Fixed(vec![2, 2]), 1, 20, 1 << 4, 3),
+        (FriReductionStrategy::Fixed(vec![3, 1, 2]), 2, 30, 1 << 5, 3),
+        (FriReductionStrategy::Fixed(vec![1, 2, 1, 1]), 0, 40, 1 << 5, 3),
+        (FriReductionStrategy::ConstantArityBits(1, 1), 2, 14, 1 << 3, 3),
+        (FriReductionStrategy::ConstantArityBits(4, 5), 4, 28, 1 << 9, 3),
+        (FriReductionStrategy::ConstantArityBits(3, 2), 3, 60, 1 << 6, 3),
+        (FriReductionStrategy::ConstantArityBits(2, 3), 5, 500, 1 << 4, 3),
+        // other blowups (the evaluation domain is 2^(degree_bits + rate_bits), whatever the quotient degree factor is)
+        (FriReductionStrategy::Fixed(vec![2, 2]), 1, 20, 1 << 4, 4),
+        (FriReductionStrategy::ConstantArityBits(3, 2), 3, 30, 1 << 6, 5),
+        (FriReductionStrategy::ConstantArityBits(4, 5), 4, 28, 1 << 9, 4),
+        (FriReductionStrategy::Fixed(vec![1, 1]), 2, 16, 1 << 4, 2),
+        (FriReductionStrategy::Fixed(vec![1, 3]), 0, 24, 1 << 5, 6),
     ];
-    for (k, (strategy, cap_height, nq, rows)) in schedules.into_iter().enumerate() {
+    for (k, (strategy, cap_height, nq, rows, rate_bits)) in schedules.into_iter().enumerate() {
         let mut cfg = CircuitConfig::standard_recursion_config();
+        cfg.fri_config.rate_bits = rate_bits;
         cfg.security_bits = 3;
         cfg.fri_config.proof_of_work_bits = 1;
         cfg.fri_config.cap_height = cap_height;
@@ -679,7 +697,7 @@ fn c16_compression() {
         cases += 3;
         let comp = match catch_unwind(AssertUnwindSafe(|| data.compress(proof.clone()))) { Ok(Ok(c)) => c, _ => { bad.push(format!("schedule {k} {strategy:?} cap {cap_height} q {nq}: compress failed")); continue; } };
         match catch_unwind(AssertUnwindSafe(|| data.decompress(comp.clone()))) {
-            Ok(Ok(p2)) => if p2 != proof { bad.push(format!("schedule {k} {strategy:?} cap {cap_height} q {nq}: decompress(compress(p)) != p")) },
+            Ok(Ok(p2)) => if p2 != proof { bad.push(format!("schedule {k} {strategy:?} cap {cap_height} q {nq} rate_bits {rate_bits}: decompress(compress(p)) != p")) },
             Ok(Err(e)) => bad.push(format!("schedule {k} {strategy:?}: decompress error {e}")),
             Err(_) => bad.push(format!("schedule {k} {strategy:?} cap {cap_height} q {nq}: decompress PANICKED")),
         }
@@ -834,13 +852,16 @@ fn gate_battery<G: crate::gates::gate::Gate<F, D>>(tag: &str, mk: impl Fn() -> G
         }
     }
     // (3) generator completeness and pinning: wires a generator writes are found by conflict (preset everything, drop what a generator overwrites)
-    for mode in 0..3 {
+    for mode in 0..4 {
         let consts: Vec<F> = (0..nc).map(|k| if mode != 1 { F::from_canonical_u64((k as u64 * 5 + 3) % 7) } else { F::rand() }).collect();
         let mut builder = CircuitBuilder::<F, D>::new(config.clone());
         let row = builder.add_gate(mk(), consts.clone());
         let data = match catch_unwind(AssertUnwindSafe(|| builder.build_prover::<PC>())) { Ok(d) => d, Err(_) => { continue; } };
-        // mode 0: every wire in {0,1}; mode 1: every wire random; mode 2: wire 0 random, the others in {0,1}
-        let vals: Vec<F> = (0..nw).map(|k| if mode == 0 || (mode == 2 && k != 0) { F::from_canonical_u64(((k * 7 + 1) % 3 % 2) as u64) } else { F::rand() }).collect();
+        // mode 0: every wire in {0,1}; mode 1: every wire random; mode 2: wire 0 random, the others in {0,1}; mode 3: as mode 0, but the values are held in
+        // their NON-canonical representation (v + p), which ordinary field arithmetic produces and generators must treat as the same element
+        let vals: Vec<F> = (0..nw).map(|k| if mode == 0 || (mode == 2 && k != 0) { F::from_canonical_u64(((k * 7 + 1) % 3 % 2) as u64) }
+            else if mode == 3 { F::from_noncanonical_u64(0xFFFF_FFFF_0000_0001u64 + ((k * 7 + 1) % 3 % 2) as u64) } else { F::rand() }).collect();
+        let mut gen_panicked = false;
         let mut preset: Vec<bool> = vec![true; nw];
         let mut result = None;
         for _ in 0..=nw {
@@ -854,9 +875,10 @@ fn gate_battery<G: crate::gates::gate::Gate<F, D>>(tag: &str, mk: impl Fn() -> G
                     let col = msg.split("column: ").nth(1).and_then(|t| t.split(|ch: char| !ch.is_ascii_digit()).next()).and_then(|t| t.parse::<usize>().ok());
                     match col { Some(cidx) if cidx < nw && preset[cidx] => { preset[cidx] = false; } _ => { break; } }
                 }
-                Err(_) => { break; }
+                Err(_) => { gen_panicked = true; break; }
             }
         }
+        if gen_panicked && (mode == 0 || mode == 3) { *cases += 1; bad.push(format!("{tag}: witness generation PANICKED on inputs in {{0,1}}{}", if mode == 3 { " held in non-canonical representation" } else { "" })); }
         let Some(row_vals) = result else { continue; };
         if row_vals.iter().any(|v| v.is_none()) { continue; }
         let mut rowv: Vec<F> = row_vals.into_iter().map(|v| v.unwrap()).collect();
@@ -873,7 +895,7 @@ fn gate_battery<G: crate::gates::gate::Gate<F, D>>(tag: &str, mk: impl Fn() -> G
         let honest = eval(&rowv);
         if honest.iter().any(|c| !c.is_zero()) {
             // inputs outside the gate's domain (e.g. non-bits, too large a sum): only mode 0 (small 0/1 inputs) must be satisfiable
-            if mode == 0 { bad.push(format!("{tag}: row filled by the gate's own generators (inputs in {{0,1}}) violates constraint {}", honest.iter().position(|c| !c.is_zero()).unwrap())); }
+            if mode == 0 || mode == 3 { bad.push(format!("{tag}: row filled by the gate's own generators (inputs in {{0,1}}{}) violates constraint {}", if mode == 3 { ", non-canonical representation" } else { "" }, honest.iter().position(|c| !c.is_zero()).unwrap())); }
             continue;
         }
         for &k in &generated { for delta in [F::ONE, F::NEG_ONE, F::from_canonical_u64(12345)] {
@@ -1431,10 +1453,30 @@ impl<'a> Adv<'a> {
         {
             use crate::plonk::prover::verif_hooks::{set, Strategy};
             for (name, st) in [
-                ("all-zero permutation accumulator", Strategy { zero_permutation_polys: true, perturb_quotient_of_challenge: None, lenient_quotient_truncation: true }),
-                ("quotient truncated instead of aborting", Strategy { zero_permutation_polys: false, perturb_quotient_of_challenge: None, lenient_quotient_truncation: true }),
-                ("quotient altered for challenge 0", Strategy { zero_permutation_polys: false, perturb_quotient_of_challenge: Some(0), lenient_quotient_truncation: true }),
-                ("quotient altered for the last challenge, zero accumulator", Strategy { zero_permutation_polys: true, perturb_quotient_of_challenge: Some(self.data.common.config.num_challenges - 1), lenient_quotient_truncation: true }),
+                ("all-zero permutation accumulator", Strategy { zero_permutation_polys: true, lenient_quotient_truncation: true, ..Strategy::default() }),
+                ("quotient truncated instead of aborting", Strategy { lenient_quotient_truncation: true, ..Strategy::default() }),
+                ("quotient altered for challenge 0", Strategy { perturb_quotient_of_challenge: Some(0), lenient_quotient_truncation: true, ..Strategy::default() }),
+                ("quotient altered for the last challenge, zero accumulator", Strategy { zero_permutation_polys: true, perturb_quotient_of_challenge: Some(self.data.common.config.num_challenges - 1), lenient_quotient_truncation: true, ..Strategy::default() }),
+            ] {
+                set(st);
+                let o = self.outcome();
+                set(Strategy::default());
+                v.push((name, o));
+            }
+        }
+        v
+    }
+
+    /// the same assignment handed to a prover that starts the running sum of every lookup table at the offset that makes it end at zero
+    /// (guarded hook `offset_lookup_sums`): only an argument that pins the START of the sum rejects a pair that is not in the table
+    fn outcomes_lookup_adversarial(&self) -> Vec<(&'static str, &'static str)> {
+        let mut v = Vec::new();
+        #[cfg(feature = "verif_hooks")]
+        {
+            use crate::plonk::prover::verif_hooks::{set, Strategy};
+            for (name, st) in [
+                ("lookup running sums started at a chosen offset", Strategy { offset_lookup_sums: true, ..Strategy::default() }),
+                ("lookup running sums started at a chosen offset, quotient truncated", Strategy { offset_lookup_sums: true, lenient_quotient_truncation: true, ..Strategy::default() }),
             ] {
                 set(st);
                 let o = self.outcome();
@@ -1588,16 +1630,23 @@ fn c08_lookups() {
     let mut bad = Vec::new();
     let mut cases = 0usize;
     // (table sizes, lookups per table); LookupGate holds 40 lookups and LookupTableGate 26 entries per row in the standard configuration
-    let plans: Vec<(Vec<usize>, Vec<usize>)> = vec![
-        (vec![1], vec![1]), (vec![2], vec![3]), (vec![26], vec![40]), (vec![27], vec![41]), (vec![53], vec![80]), (vec![16], vec![39]),
-        (vec![16, 20], vec![1, 1]), (vec![16, 20], vec![40, 3]), (vec![5, 26, 30], vec![2, 80, 1]), (vec![52, 3], vec![7, 120]), (vec![16, 16], vec![5, 5]),
+    // key scheme 0: key i*(t+2)+t; 1: the keys 0..len with key 0 first, key len-1 last and the inner ones shuffled; 2: key 0 first, key len-1 last, arbitrary
+    // large keys in between; 3: the identity 0..len (what add_lookup_table_from_fn produces)
+    let plans: Vec<(Vec<usize>, Vec<usize>, usize)> = vec![
+        (vec![1], vec![1], 0), (vec![2], vec![3], 0), (vec![26], vec![40], 0), (vec![27], vec![41], 0), (vec![53], vec![80], 0), (vec![16], vec![39], 0),
+        (vec![16, 20], vec![1, 1], 0), (vec![16, 20], vec![40, 3], 0), (vec![5, 26, 30], vec![2, 80, 1], 0), (vec![52, 3], vec![7, 120], 0), (vec![16, 16], vec![5, 5], 0),
+        (vec![4], vec![3], 1), (vec![30], vec![45], 1), (vec![6], vec![5], 2), (vec![28, 5], vec![9, 4], 2), (vec![8], vec![8], 3), (vec![52], vec![60], 3), (vec![78], vec![30], 0),
     ];
-    for (pi, (sizes, nlook)) in plans.iter().enumerate() {
-        let tag = format!("tables of sizes {sizes:?} with {nlook:?} lookups");
-        // table t: key i*(t+2)+t  ->  value with duplicates, 16-bit
-        let mut tables: Vec<Vec<(u16, u16)>> = sizes.iter().enumerate().map(|(t, &sz)| (0..sz).map(|i| ((i * (t + 2) + t) as u16, (((i * 37 + 11 * t + pi) % 23) as u16) * 1000 + t as u16)).collect()).collect();
+    for (pi, (sizes, nlook, scheme)) in plans.iter().enumerate() {
+        let tag = format!("tables of sizes {sizes:?} (key scheme {scheme}) with {nlook:?} lookups");
+        // value with duplicates, 16-bit
+        let mut tables: Vec<Vec<(u16, u16)>> = sizes.iter().enumerate().map(|(t, &sz)| (0..sz).map(|i| {
+            let key = match *scheme { 0 => i * (t + 2) + t, 3 => i, 1 => if i == 0 || i == sz - 1 { i } else { 1 + (i * 7 + 2) % (sz - 2).max(1) }, _ => if i == 0 || i == sz - 1 { i } else { 900 + 13 * i + t } };
+            (key as u16, (((i * 37 + 11 * t + pi) % 23) as u16) * 1000 + t as u16) }).collect()).collect();
+        // scheme 1 must be a permutation of 0..len: repair collisions of the inner shuffle
+        if *scheme == 1 { for tb in tables.iter_mut() { let sz = tb.len(); let mut used = vec![false; sz]; for i in 0..sz { let mut k = tb[i].0 as usize; if i != 0 && i != sz - 1 { while k == 0 || k >= sz - 1 || used[k] { k = 1 + k % (sz - 2).max(1); if !used[k] && k != 0 && k < sz - 1 { break; } k += 1; } } used[k.min(sz - 1)] = true; tb[i].0 = k as u16; } } }
         // tables are arbitrary lists of pairs: for a third of the plans the entries are not in increasing key order
-        if pi % 3 != 0 { for tb in tables.iter_mut() { let n = tb.len(); for i in 0..n { let j = (i * 7 + 3) % n; tb.swap(i, j); } if n > 2 { tb.reverse(); tb.swap(0, n / 2); } } }
+        if *scheme == 0 && pi % 3 != 0 { for tb in tables.iter_mut() { let n = tb.len(); for i in 0..n { let j = (i * 7 + 3) % n; tb.swap(i, j); } if n > 2 { tb.reverse(); tb.swap(0, n / 2); } } }
         let built = catch_unwind(AssertUnwindSafe(|| {
             let mut b = CircuitBuilder::<F, D>::new(CircuitConfig::standard_recursion_config());
             let idxs: Vec<usize> = tables.iter().map(|t| b.add_lookup_table_from_pairs(Arc::new(t.clone()))).collect();
@@ -1636,6 +1685,7 @@ fn c08_lookups() {
                     cases += 1;
                     let o = a.outcome();
                     if o == "ACCEPTED" || o == "verifier PANICKED" { bad.push(format!("{tag}: lookup {j} of table {t}: pair ({key}, {w}) is not in the table -> {o}")); }
+                    for (how, o2) in a.outcomes_lookup_adversarial() { cases += 1; if o2 == "ACCEPTED" || o2 == "verifier PANICKED" { bad.push(format!("{tag}: lookup {j} of table {t}: pair ({key}, {w}) is not in the table, prover strategy: {how} -> {o2}")); } }
                 }
                 // input side: a key of another table / a non-key, output unchanged
                 let mut wrong_ins: Vec<u64> = vec![60000];
@@ -1648,6 +1698,7 @@ fn c08_lookups() {
                     cases += 1;
                     let o = a.outcome();
                     if o == "ACCEPTED" || o == "verifier PANICKED" { bad.push(format!("{tag}: lookup {j} of table {t}: pair ({w}, {val}) is not in the table -> {o}")); }
+                    for (how, o2) in a.outcomes_lookup_adversarial() { cases += 1; if o2 == "ACCEPTED" || o2 == "verifier PANICKED" { bad.push(format!("{tag}: lookup {j} of table {t}: pair ({w}, {val}) is not in the table, prover strategy: {how} -> {o2}")); } }
                 }
             }
             // the declared table itself is binding: rewriting a table row in the trace (entry (key, v) -> (key, v')) together with a lookup of
@@ -1902,6 +1953,68 @@ fn c13_linear_layers() {
     finish("c13_linear_layers", cases, bad);
 }
 
+// C05: stand-alone FRI opening proofs over structured polynomials and opening plans (constant / zero / low-degree polynomials, several opening points,
+// batches whose combined numerator vanishes identically): true openings are accepted, any false opening is rejected
+#[test]
+fn c05_fri_structured_openings() {
+    use crate::field::polynomial::PolynomialCoeffs;
+    use crate::field::types::Sample;
+    use crate::fri::oracle::PolynomialBatch;
+    use crate::fri::structure::{FriBatchInfo, FriInstanceInfo, FriOpeningBatch, FriOpenings, FriOracleInfo, FriPolynomialInfo};
+    use crate::fri::{FriConfig, FriParams};
+    use crate::iop::challenger::Challenger;
+    use crate::util::timing::TimingTree;
+    let mut bad = Vec::new();
+    let mut cases = 0usize;
+    for (degree_bits, arities, rate_bits) in [(5usize, vec![2usize, 1], 2usize), (4, vec![1, 1], 1), (6, vec![3], 3), (3, vec![], 1)] {
+        let n = 1usize << degree_bits;
+        let cst = |c: F| { let mut v = vec![F::ZERO; n]; v[0] = c; PolynomialCoeffs::new(v) };
+        let lin = |a: F, b: F| { let mut v = vec![F::ZERO; n]; v[0] = a; v[1] = b; PolynomialCoeffs::new(v) };
+        // polynomials of the single oracle: 0 random, 1 random, 2 constant, 3 constant one, 4 zero, 5 linear, 6 random
+        let polys: Vec<PolynomialCoeffs<F>> = vec![PolynomialCoeffs::new(F::rand_vec(n)), PolynomialCoeffs::new(F::rand_vec(n)), cst(F::rand()), cst(F::ONE), cst(F::ZERO), lin(F::rand(), F::rand()), PolynomialCoeffs::new(F::rand_vec(n))];
+        // opening plans: which polynomials are opened at which of the points (index into [zeta, eta, theta])
+        let plans: Vec<(&str, Vec<(usize, Vec<usize>)>)> = vec![
+            ("all at one point", vec![(0, vec![0, 1, 2, 3, 4, 5, 6])]),
+            ("random at zeta, constants at eta", vec![(0, vec![0]), (1, vec![2, 3])]),
+            ("constants first, random second", vec![(0, vec![2, 3]), (1, vec![0, 1])]),
+            ("zero polynomial alone in the middle batch", vec![(0, vec![0, 5]), (1, vec![4]), (2, vec![1, 6])]),
+            ("only constants and zero", vec![(0, vec![2]), (1, vec![3, 4])]),
+            ("same polynomial at three points", vec![(0, vec![0, 2]), (1, vec![0, 2]), (2, vec![0, 4])]),
+        ];
+        for (pname, plan) in plans {
+            let tag = format!("FRI 2^{degree_bits}, arities {arities:?}, rate_bits {rate_bits}, plan '{pname}'");
+            let fri_params = FriParams { config: FriConfig { rate_bits, cap_height: 1, proof_of_work_bits: 2, reduction_strategy: FriReductionStrategy::Fixed(arities.clone()), num_query_rounds: 8 }, hiding: false, degree_bits, reduction_arity_bits: arities.clone() };
+            let built = catch_unwind(AssertUnwindSafe(|| {
+                let batch = PolynomialBatch::<F, PC, D>::from_coeffs(polys.clone(), rate_bits, false, 1, &mut TimingTree::default(), None);
+                let mut challenger = Challenger::<F, PoseidonHash>::new();
+                challenger.observe_cap(&batch.merkle_tree.cap);
+                let points: Vec<FE> = (0..3).map(|_| challenger.get_extension_challenge::<D>()).collect();
+                let instance = FriInstanceInfo::<F, D> { oracles: vec![FriOracleInfo { num_polys: polys.len(), blinding: false }],
+                    batches: plan.iter().map(|(pt, idx)| FriBatchInfo { point: points[*pt], polynomials: idx.iter().map(|&i| FriPolynomialInfo { oracle_index: 0, polynomial_index: i }).collect() }).collect() };
+                let openings = FriOpenings::<F, D> { batches: plan.iter().map(|(pt, idx)| FriOpeningBatch { values: idx.iter().map(|&i| polys[i].to_extension::<D>().eval(points[*pt])).collect() }).collect() };
+                challenger.observe_openings(&openings);
+                let mut vch = challenger.clone();
+                let proof = PolynomialBatch::<F, PC, D>::prove_openings(&instance, &[&batch], &mut challenger, &fri_params, None, None, &mut TimingTree::default());
+                let ch = vch.fri_challenges::<PC, D>(&proof.commit_phase_merkle_caps, &proof.final_poly, proof.pow_witness, degree_bits, &fri_params.config, None, None);
+                (instance, openings, proof, ch, batch.merkle_tree.cap.clone())
+            }));
+            cases += 1;
+            let Ok((instance, openings, proof, ch, cap)) = built else { bad.push(format!("{tag}: committing / proving PANICKED")); continue; };
+            let verdict = |op: &FriOpenings<F, D>| -> &'static str { match catch_unwind(AssertUnwindSafe(|| verify_fri_proof::<F, PC, D>(&instance, op, &ch, &[cap.clone()], &proof, &fri_params))) { Ok(Ok(())) => "ACCEPTED", Ok(Err(_)) => "rejected", Err(_) => "PANICKED" } };
+            let v = verdict(&openings);
+            if v != "ACCEPTED" { bad.push(format!("{tag}: every claimed opening is the true evaluation -> {v}")); continue; }
+            for b in 0..openings.batches.len() { for k in 0..openings.batches[b].values.len() {
+                let mut op = FriOpenings::<F, D> { batches: openings.batches.iter().map(|x| FriOpeningBatch { values: x.values.clone() }).collect() };
+                op.batches[b].values[k] += FE::ONE;
+                cases += 1;
+                let v = verdict(&op);
+                if v != "rejected" { bad.push(format!("{tag}: false opening {k} of batch {b} -> {v}")); }
+            } }
+        }
+    }
+    finish("c05_fri_structured_openings", cases, bad);
+}
+
 // C05 (batched FRI): several oracles, several degrees; every component of the opening proof is checked
 #[test]
 fn c05_batch_fri() {
@@ -1921,6 +2034,10 @@ fn c05_batch_fri() {
         (vec![5, 4, 3], vec![1, 1], 24, 2),       // tiny domain: repeated positions
         (vec![6, 4], vec![2, 1], 16, 1),          // one oracle, mixed arities (a polynomial must enter exactly at a folding boundary)
         (vec![6, 4], vec![1, 1, 1], 14, 3),       // three oracles
+        (vec![4, 1], vec![2, 1], 12, 1),          // a two-coefficient polynomial entering at the last layer
+        (vec![4, 2], vec![2, 1], 12, 2),
+        (vec![3, 1], vec![1, 1], 10, 1),
+        (vec![5, 5, 2], vec![1, 2], 12, 1),       // two instances of the same size
     ];
     for (ks, arities, nq, n_oracles) in plans {
         let tag = format!("batch FRI degrees 2^{ks:?}, arities {arities:?}, {nq} queries, {n_oracles} oracles");
